@@ -8,7 +8,7 @@ from .. import gen, monitors
 
 PID = "C06"
 ANCHORS = ["scores.py:Scores.eer", "scores.py:Scores._find_root", "scores.py:Scores.eer.<locals>.f"]
-DECIDING = {"M-eer": 3000, "R-eer-equiv": 300}
+DECIDING = {"M-eer": 6407, "R-eer-equiv": 925}
 THOROUGH_EXTRA = ["W2", "W3"]
 RULE = (
     "Every Scores.eer() call is observed by M-eer, which evaluates FPR/FNR (same object) at the returned threshold. Tie-free inputs: "
